@@ -246,36 +246,15 @@ Proof.
 Qed.
 
 (* ---------------------------------------------------------------- the stored clone *)
-Lemma vstable_vnovs : forall v, vstable v = true -> vnovs v = true.
-Proof. induction v; simpl; intro H; auto; discriminate. Qed.
+Lemma vclone_id : forall v, vclone v = v.
+Proof. induction v; simpl; auto. rewrite IHv. reflexivity. Qed.
 
-Lemma vclone_stable : forall v, vstable v = true -> vclone v = v.
-Proof. induction v; simpl; intro H; auto; try discriminate. rewrite IHv; auto. Qed.
-
-Lemma stable_key_unfold : forall m t i r v g f d u c ps ms,
-  stable (key (PE m t i r v g f d u c ps ms)) = ostable v && ostable d && forallb stable (map key ms).
-Proof. reflexivity. Qed.
-
-Lemma stable_novs : forall e, stable (key e) = true -> novs (key e) = true.
+Lemma key_eclone : forall e, key (eclone e) = key e.
 Proof.
-  induction e as [m t i r v g f d u c ps ms IH] using pexpr_ind'. rewrite stable_key_unfold, novs_key_unfold.
-  intro H. apply andb_true_iff in H. destruct H as [H H3]. apply andb_true_iff in H. destruct H as [H1 H2].
-  apply andb_true_iff. split. apply andb_true_iff. split.
-  - destruct v; simpl in *; auto. apply vstable_vnovs. assumption.
-  - destruct d; simpl in *; auto. apply vstable_vnovs. assumption.
-  - clear H1 H2. induction IH as [|x l Hx Hl IH2]; simpl in *; auto.
-    apply andb_true_iff in H3. destruct H3 as [H3 H4]. apply andb_true_iff. split; auto.
-Qed.
-
-Lemma key_eclone : forall e, stable (key e) = true -> key (eclone e) = key e.
-Proof.
-  induction e as [m t i r v g f d u c ps ms IH] using pexpr_ind'. rewrite stable_key_unfold.
-  intro H. apply andb_true_iff in H. destruct H as [H H3]. apply andb_true_iff in H. destruct H as [H1 H2].
-  simpl. f_equal.
-  - destruct v; simpl in *; auto. rewrite vclone_stable; auto.
-  - destruct d; simpl in *; auto. rewrite vclone_stable; auto.
-  - clear H1 H2. induction IH as [|x l Hx Hl IH2]; simpl in *; auto.
-    apply andb_true_iff in H3. destruct H3 as [H3 H4]. rewrite Hx, IH2; auto.
+  induction e as [m t i r v g f d u c ps ms IH] using pexpr_ind'. simpl. f_equal.
+  - destruct v; simpl; auto. rewrite vclone_id. reflexivity.
+  - destruct d; simpl; auto. rewrite vclone_id. reflexivity.
+  - induction IH as [|x l Hx Hl IH2]; simpl; auto. rewrite Hx, IH2. reflexivity.
 Qed.
 
 (* ---------------------------------------------------------------- the lookup loop *)
@@ -315,11 +294,11 @@ Definition tbl_ok (tbl : list pexpr) : Prop := Forall (fun s => novs (key s) = t
 Lemma tbl_ok_nil : tbl_ok [].
 Proof. split. constructor. intros [|i] j a b H; discriminate. Qed.
 
-Lemma fork_spec : forall tbl a, tbl_ok tbl -> stable (key a) = true ->
+Lemma fork_spec : forall tbl a, tbl_ok tbl -> novs (key a) = true ->
   exists tbl' k s, fork tbl a = Some (tbl', k) /\ tbl_ok tbl' /\ nth_error tbl' k = Some s /\ key s = key a
                    /\ (exists ext, tbl' = tbl ++ ext) .
 Proof.
-  intros tbl a [Hn Hd] Hst. pose proof (stable_novs a Hst) as Ha. pose proof (key_eclone a Hst) as Hk.
+  intros tbl a [Hn Hd] Ha. pose proof (key_eclone a) as Hk.
   unfold fork. destruct (find_spec tbl a 0) eqn:E.
   - apply find_spec_found in E. destruct E as [s [_ [H2 [H3 _]]]]. rewrite Nat.sub_0_r in H2.
     exists tbl, k, s. split; [reflexivity|]. split; [split; assumption|]. split; [assumption|].
@@ -349,7 +328,7 @@ Lemma nth_error_prefix : forall (A : Type) (l ext : list A) k x, nth_error l k =
 Proof. intros A l ext k x H. rewrite nth_error_app1. assumption. apply nth_error_Some. congruence. Qed.
 
 (* every reference gets an index whose table entry has its key; the final table extends the initial one *)
-Lemma assign_spec : forall refs tbl, tbl_ok tbl -> Forall (fun a => stable (key a) = true) refs ->
+Lemma assign_spec : forall refs tbl, tbl_ok tbl -> Forall (fun a => novs (key a) = true) refs ->
   exists ks tblf ext, assign tbl refs = Some ks /\ tblf = tbl ++ ext /\ tbl_ok tblf /\ length ks = length refs /\
     forall i a k, nth_error refs i = Some a -> nth_error ks i = Some k -> exists s, nth_error tblf k = Some s /\ key s = key a.
 Proof.
@@ -367,13 +346,13 @@ Proof.
     + eapply Hall; eauto.
 Qed.
 
-Theorem assign_total : forall refs, Forall (fun a => stable (key a) = true) refs -> exists ks, spec_indices refs = Some ks /\ length ks = length refs.
+Theorem assign_total : forall refs, Forall (fun a => novs (key a) = true) refs -> exists ks, spec_indices refs = Some ks /\ length ks = length refs.
 Proof.
   intros refs H. destruct (assign_spec refs [] tbl_ok_nil H) as [ks [tblf [ext [H1 [_ [_ [H2 _]]]]]]]. exists ks. auto.
 Qed.
 
 (* THE decision: same index <-> same key *)
-Theorem spec_index_partition : forall refs ks, Forall (fun a => stable (key a) = true) refs -> spec_indices refs = Some ks ->
+Theorem spec_index_partition : forall refs ks, Forall (fun a => novs (key a) = true) refs -> spec_indices refs = Some ks ->
   length ks = length refs /\
   forall i j a b ki kj, nth_error refs i = Some a -> nth_error refs j = Some b -> nth_error ks i = Some ki -> nth_error ks j = Some kj ->
     (ki = kj <-> key a = key b).
@@ -412,10 +391,10 @@ Theorem spec_index_dense : forall refs ks i k, spec_indices refs = Some ks -> nt
 Proof. intros refs ks i k H Hk. eapply assign_dense in H; eauto. simpl in H. assumption. Qed.
 
 (* looking the same reference up again changes nothing *)
-Theorem fork_idempotent : forall tbl a tbl' k, tbl_ok tbl -> stable (key a) = true -> fork tbl a = Some (tbl', k) ->
+Theorem fork_idempotent : forall tbl a tbl' k, tbl_ok tbl -> novs (key a) = true -> fork tbl a = Some (tbl', k) ->
   fork tbl' a = Some (tbl', k).
 Proof.
-  intros tbl a tbl' k Ht Hst Hf. pose proof (stable_novs a Hst) as Ha.
+  intros tbl a tbl' k Ht Hst Hf. pose proof Hst as Ha.
   destruct (fork_spec tbl a Ht Hst) as [t1 [k1 [s1 [Hf1 [Ht1 [Hk1 [Hs1 _]]]]]]]. rewrite Hf in Hf1. injection Hf1 as E1 E2. subst t1 k1.
   destruct (fork_spec tbl' a Ht1 Hst) as [t2 [k2 [s2 [Hf2 [Ht2 [Hk2 [Hs2 [ext Hext]]]]]]]].
   unfold fork in *. destruct (find_spec tbl' a 0) eqn:E.
@@ -426,12 +405,11 @@ Proof.
   - discriminate.
 Qed.
 
-(* ... and the hypothesis is needed: the value NULL as an actual parameter is stored as "no value", so the second
-   lookup of the SAME reference forks again (asn1c then refers to a specialization it never emits) *)
+(* the value NULL as an actual parameter is no exception (its stored copy is the value NULL again) *)
 Definition null_actual : pexpr := wrap [PE 3 1 (Some "?"%str) None (Some PVNull) (0, 0, 0)%Z 0 None false None [] []].
-Example fork_idempotent_null_refuted :
-  exists tbl' k, fork [] null_actual = Some (tbl', k) /\ fork tbl' null_actual <> Some (tbl', k).
-Proof. eexists. eexists. split. vm_compute. reflexivity. vm_compute. discriminate. Qed.
+Example fork_idempotent_null :
+  novs (key null_actual) = true /\ spec_indices [null_actual; null_actual; null_actual] = Some [0; 0; 0]%nat.
+Proof. split; vm_compute; reflexivity. Qed.
 
 (* ---------------------------------------------------------------- the defect, stated *)
 Lemma key_eclone_comm : forall e, key (eclone e) = eclone (key e).
